@@ -89,6 +89,7 @@ class Contract:
         self.lemmas = {l.id: l for l in lemmas}
         self.facts = list(facts)  # lemma instances offered to every obligation of a path where they can be evaluated
         self.stop_after = None  # cut point: verification of the function ends after this statement (text prefix)
+        self.split_forks = False  # str.split(sep) on a symbolic text forks into "sep does not occur: [text]" and "occurs: opaque list"
         self.allow_unordered = False  # iterate set-valued expressions in one fixed order (justified by an audit obligation named in the note)
         self.opaque = {}  # callee text -> {"ret": ..., "effect": bool}: calls the verifier does not look into (logged)
 
@@ -431,6 +432,7 @@ def verify_function(contract, registry, only_cases=None):
         eng.stop_after = getattr(case, "stop_after", None) or contract.stop_after
         eng.opaque = contract.opaque
         eng.allow_unordered = contract.allow_unordered
+        eng.split_forks = getattr(contract, "split_forks", False)
         fors = sorted((n for n in ast.walk(node) if isinstance(n, ast.For)), key=lambda n: (n.lineno, n.col_offset))
         eng.loop_ordinals = {id(n): k + 1 for k, n in enumerate(fors)}
         eng.ghost_hooks = contract.ghosts
@@ -521,6 +523,12 @@ def verify_function(contract, registry, only_cases=None):
                             ob.extra["clause"] = cl.id
                             ob.extra["result"] = repr(result)
                             ob.extra["ghost_terms"] = {gk: gv.t for gk, gv in s.ghost.items() if isinstance(gv, Sym)}
+                        except E.SpecRaises as e:
+                            # the clause raises on every run of this path: it fails wherever the path is feasible (the solver decides that and gives the input)
+                            ob = eng.oblige("post", s, z3.BoolVal(False), cl.text, oid="%s/%s@path%d" % (label, cl.id, n_ret))
+                            ob.extra["clause"] = cl.id
+                            ob.extra["spec_raises"] = e.kind
+                            ob.extra["result"] = repr(result)
                         except Unsupported as e:
                             ob = eng.oblige("post", s, z3.BoolVal(False), cl.text, oid="%s/%s@path%d" % (label, cl.id, n_ret))
                             ob.status, ob.reason = "undecided", "spec not evaluable: %s" % e
